@@ -39,8 +39,11 @@ def thresholds(tier):
 
 def wq_of(fam, rnd):
   b = rnd.choice([2, 3, 4, 5])
+  if fam == "fixed" and rnd.random() < 0.2:
+    # the smallest signed formats: {-2,-1,0,1} and {-1,-0.5,0,0.5} are four-valued, not ternary
+    return Qd("quantized_bits", bits=2, integer=rnd.choice([1, 1, 0]), symmetric=0, alpha=1.0)
   if fam == "fixed":
-    return Qd("quantized_bits", bits=b, integer=rnd.choice([0, 1]), symmetric=1, alpha=1.0)
+    return Qd("quantized_bits", bits=b, integer=rnd.choice([0, 1]), symmetric=rnd.choice([1, 0]), alpha=1.0)
   if fam == "auto_po2":
     return Qd("quantized_bits", bits=max(b, 3), integer=rnd.choice([0, 1]), symmetric=1, alpha="auto_po2")
   if fam == "po2":
@@ -62,8 +65,9 @@ def cases(tier, seed):
   n = 96 if tier == "quick" else 1500
   out = []
   FOCUS = [("seq", "auto_po2"), ("seq", "auto_po2"), ("vec", "po2_mv"), ("img", "po2_mv"), ("seq", "po2_mv"), ("img", "auto_po2"),
-           ("vec", "sbinary"), ("img", "sternary"), ("vec", "fixed", "relu1"), ("img", "fixed", "relu1")]
-  nf = 20 if tier == "quick" else 200
+           ("vec", "sbinary"), ("img", "sternary"), ("vec", "fixed", "relu1"), ("img", "fixed", "relu1"),
+           ("vec", "fixed"), ("seq", "fixed")]
+  nf = 24 if tier == "quick" else 240
   for i in range(n + nf):
     rnd = random.Random(seed * 6007 + i)
     nm = _Names()
